@@ -1,0 +1,26 @@
+//go:build verif
+
+// Package verifhook provides yield points used by external verification
+// harnesses. This file is only compiled with the "verif" build tag.
+package verifhook
+
+import "sync/atomic"
+
+var handler atomic.Pointer[func(point string)]
+
+// Yield calls the installed handler, if any, with the name of the point reached.
+func Yield(point string) {
+	if h := handler.Load(); h != nil {
+		(*h)(point)
+	}
+}
+
+// Set installs fn as the handler invoked at every yield point.
+func Set(fn func(point string)) {
+	handler.Store(&fn)
+}
+
+// Clear removes the installed handler.
+func Clear() {
+	handler.Store(nil)
+}
